@@ -444,3 +444,17 @@ Definition get_et_typed (e : elem) : result (pyval * option str) :=
 Fixpoint repeat_elem (n : nat) : list elem := match n with O => [] | S k => empty_elem :: repeat_elem k end.
 Definition grid_set (i : nat) (e : elem) (l : list elem) : list elem :=
   firstn i (l ++ repeat_elem (i - length l)) ++ e :: skipn (S i) l.
+
+(* ------------------------------------------------------------------ UserDefined(name, value, value_type, from_document=doc)
+   When the document's user-defined metadata has an entry of that name ([me]: its element), value and value type are the entry's
+   (read as Meta reads them: numbers as Decimal, a date as the datetime at 00:00) whatever they are - False, 0, "" included -;
+   otherwise the constructor's arguments are used. *)
+Definition set_ud_from_doc (me : option elem) (vt0 : option str) (v0 : pyval) : result elem :=
+  match me with
+  | None => set_et_full vt0 None None v0
+  | Some m =>
+    match get_meta m with
+    | Ok v => set_et_full (Some (match vtype m with Some t => t | None => t_string end)) None None v
+    | Err => Err
+    end
+  end.
